@@ -287,6 +287,24 @@ func ruleC05Names(c *ctx.Ctx, r *core.Reporter) {
 	r.Check(strings.Contains(nodeString(c, sn.Body), "d.objectFilter, d.methodFilter = getFilters(o, tNest, tArgs)"), "names:SetName", c.Pos(sn.Pos()), "SetName derives both filters from getFilters(o, tNest, tArgs)")
 	s := nodeString(c, ad.Body)
 	r.Check(strings.Contains(s, "objectFilter, methodFilter := getFilters(o, tNest, tArgs)") && strings.Contains(s, "d.addDepName(objectFilter)") && strings.Contains(s, "d.addDepName(methodFilter)"), "names:addDep", c.Pos(ad.Pos()), "addDep derives both filters from the same getFilters and records both")
+	// filter strings are invariant under type identity (finer distinctions make a needed decl look unrelated)
+	if ft := c.FuncDecl(dce, "filterGen.Type"); ft != nil {
+		arm := armOf(ft, "*types.Basic")
+		ok := arm != nil && strings.Contains(squash(nodeString(c, arm)), "types.Typ[kind].String()")
+		site := c.Pos(ft.Pos())
+		if arm != nil {
+			site = c.Pos(arm.Pos())
+		}
+		r.Check(ok, "names:basic-canonical", site, "basic types are rendered through their kind: byte/uint8 and rune/int32 are identical types and must give identical filters (t.String() spells them differently)")
+	}
+	if fi := c.FuncDecl(dce, "filterGen.Interface"); fi != nil {
+		t := squash(nodeString(c, fi.Body))
+		r.Check(strings.Contains(t, "parts:=make([]string,inter.NumMethods())") && strings.Contains(t, "fn:=inter.Method(i)"), "names:interface-complete-method-set", c.Pos(fi.Pos()), "an interface is rendered from its complete method set (NumMethods/Method), which is what interface identity is defined on; the explicitly declared methods alone omit embedded interfaces")
+		r.Check(strings.Contains(t, "sort.Strings(parts)"), "names:interface-order-free", c.Pos(fi.Pos()), "the method order of an interface does not influence its filter")
+	}
+	if fu := c.FuncDecl(dce, "filterGen.Union"); fu != nil {
+		r.Check(strings.Contains(nodeString(c, fu.Body), "sort.Strings(parts)"), "names:union-order-free", c.Pos(fu.Pos()), "the term order of a union does not influence its filter")
+	}
 	inc := c.FuncDecl(dce, "Selector.Include")
 	al := c.FuncDecl(dce, "Selector.AliveDecls")
 	if inc != nil {
